@@ -61,7 +61,7 @@ ASSUMPTIONS = ['a write to an open file lands at the offset of the preceding see
 EXPLANATION = ('invariant proved inductively for all histories, defrag proved lookup-preserving and non-growing for all '
                'threshold decisions; real bundle files compared byte for byte with the model and checked by an '
                'independent reader after every operation')
-GEN = ['Gen_compact.v']
+GEN = ['Gen_compact.v', 'Gen_compact_fmt.v']
 
 B1 = 60 + 16384 * 4
 X1 = 16 + 16384 * 5 + 16
@@ -101,16 +101,19 @@ class FV(object):
 
     def __init__(self, path):
         self.path = path
-        self.size = os.path.getsize(path)
+        self.fd = os.open(path, os.O_RDONLY)
+        self.size = os.fstat(self.fd).st_size
 
     def read(self, off, n):
         if n <= 0 or off < 0:
             return b''
-        fd = os.open(self.path, os.O_RDONLY)
+        return os.pread(self.fd, n, off)
+
+    def __del__(self):
         try:
-            return os.pread(fd, n, off)
-        finally:
-            os.close(fd)
+            os.close(self.fd)
+        except Exception:   # noqa
+            pass
 
     def __len__(self):
         return self.size
@@ -358,29 +361,44 @@ def size_lit(sz):
     return 'None'
 
 
-def observe(real, probes, thresholds_skip):
-    """[(key, obs literal, skip)] of the bundles on disk; None if something is unreadable."""
+def observe(real, probes, thresholds_skip, sparse=False):
+    """[(key, obs literal, skip)] of the bundles on disk; None if something is unreadable.
+    sparse=True: the form that never reads the area behind the fixed part as a whole (v2_sobs / v1_sobs)."""
     out = []
     for key, base in sorted(bundle_files(real.dir).items()):
         z, c, r = key
         loads = [real.load((c + x, r + y, z)) for x, y in probes]      # also creates a missing v1 data file
         sz = real.size(key)
         if real.version == 2:
-            raw = read_bytes(base + '.bundle')
+            raw = view(base + '.bundle')
             if raw is None or len(raw) < B2:
                 return None
-            ents = [struct.unpack('<Q', raw[64 + 8 * (x + 128 * y):72 + 8 * (x + 128 * y)])[0] for x, y in probes]
-            obs = '(%d, %s, %s, %s, %s, %s)' % (len(raw), llit(raw[:64]), llit(ents), llit(raw[B2:]),
-                                                 llit(loads, rres_lit), size_lit(sz))
+            ents = [struct.unpack('<Q', raw.read(64 + 8 * (x + 128 * y), 8))[0] for x, y in probes]
+            if sparse:
+                obs = '(%d, %s, %s, %s, %s)' % (len(raw), llit(raw.read(0, 64)), llit(ents),
+                                                llit(loads, rres_lit), size_lit(sz))
+            else:
+                if len(raw) > SMALL:
+                    return None
+                obs = '(%d, %s, %s, %s, %s, %s)' % (len(raw), llit(raw.read(0, 64)), llit(ents),
+                                                     llit(raw.read(B2, len(raw) - B2)), llit(loads, rres_lit), size_lit(sz))
         else:
-            idx, dat = read_bytes(base + '.bundlx'), read_bytes(base + '.bundle')
+            idx, dat = read_bytes(base + '.bundlx'), view(base + '.bundle')
             if idx is None or dat is None or len(idx) < X1 or len(dat) < B1:
                 return None
             ents = [int.from_bytes(idx[16 + 5 * (x * 128 + y):21 + 5 * (x * 128 + y)], 'little') for x, y in probes]
-            zeros = [struct.unpack('<L', dat[60 + 4 * (x * 128 + y):64 + 4 * (x * 128 + y)])[0] for x, y in probes]
-            obs = '(%d, %s, %s, %d, %s, %s, %s, %s, %s)' % (
-                len(idx), llit(idx[:16] + idx[16 + 81920:16 + 81920 + 16]), llit(ents), len(dat), llit(dat[:60]),
-                llit(dat[B1:]), llit(zeros), llit(loads, rres_lit), size_lit(sz))
+            zeros = [struct.unpack('<L', dat.read(60 + 4 * (x * 128 + y), 4))[0] for x, y in probes]
+            if sparse:
+                obs = '(%d, %s, %s, %d, %s, %s, %s, %s)' % (
+                    len(idx), llit(idx[:16] + idx[16 + 81920:16 + 81920 + 16]), llit(ents), len(dat),
+                    llit(dat.read(0, 60)), llit(zeros), llit(loads, rres_lit), size_lit(sz))
+            else:
+                if len(dat) > SMALL:
+                    return None
+                obs = '(%d, %s, %s, %d, %s, %s, %s, %s, %s)' % (
+                    len(idx), llit(idx[:16] + idx[16 + 81920:16 + 81920 + 16]), llit(ents), len(dat),
+                    llit(dat.read(0, 60)), llit(dat.read(B1, len(dat) - B1)), llit(zeros), llit(loads, rres_lit),
+                    size_lit(sz))
         out.append((key, obs, thresholds_skip.get(key, True)))
     return out
 
@@ -391,12 +409,29 @@ def seen_lit(seen):
     return '(Some %s)' % llit(seen, lambda e: '((%d, %d, %d), %s, %s)' % (e[0] + (e[1], blit(e[2]))))
 
 
-def ops_lit(ops):
+def ops_lit(ops, sparse=False):
     def one(op):
         if op[0] == 'S':
-            return '(CStore %s)' % llit(op[1], lambda t: '((%d, %d, %d), %s)' % (tuple(t[0]) + (llit(t[1]),)))
-        return '(CRemove (%d, %d, %d))' % tuple(op[1])
+            t = '(CStore %s)' % llit(op[1], lambda t: '((%d, %d, %d), %s)' % (tuple(t[0]) + (llit(t[1]),)))
+        elif op[0] == 'R':
+            t = '(CRemove (%d, %d, %d))' % tuple(op[1])
+        else:
+            return '(XSparse (%d, %d, %d) %d)' % (tuple(op[1]) + (op[2],))
+        return '(XOp %s)' % t if sparse else t
     return llit(ops, one)
+
+
+def make_sparse(cache_dir, key, n):
+    """Extend the data file of a bundle to n bytes with a hole (no blocks are written) and put n into the
+    header's file-size field (8 bytes at offset 24 in both formats), as a long store/overwrite history would have."""
+    z, c, r = key
+    path = os.path.join(cache_dir, 'L%02d' % z, 'R%04xC%04x.bundle' % (r, c))
+    if os.path.getsize(path) > n:
+        raise ValueError('sparse size below the current size')
+    os.truncate(path, n)
+    with open(path, 'r+b') as f:
+        f.seek(24)
+        f.write(struct.pack('<Q', n))
 
 
 # ------------------------------------------------------------------------------------- generators
@@ -497,8 +532,10 @@ def run_case(ctx, version, ops, thresholds, label, probes_extra=()):
     d = ctx.tmpdir('c19')
     cache_dir = os.path.join(d, 'cache')
     real = Real(version, cache_dir)
+    sparse = any(o[0] == 'X' for o in ops)
     replay = {'format': 'v%d' % version, 'label': label,
-              'ops': [[o[0], [[list(a), list(b)] for a, b in o[1]]] if o[0] == 'S' else [o[0], list(o[1])] for o in ops]}
+              'ops': [[o[0], [[list(a), list(b)] for a, b in o[1]]] if o[0] == 'S' else
+                      [o[0], list(o[1])] if o[0] == 'R' else [o[0], list(o[1]), o[2]] for o in ops]}
     expect, touched = {}, []
     aborted = False
     for i, op in enumerate(ops):
@@ -511,6 +548,9 @@ def run_case(ctx, version, ops, thresholds, label, probes_extra=()):
                     expect[tuple(a)] = bytes(data)
                 else:
                     expect.pop(tuple(a), None)      # an empty tile is a missing tile in both formats
+        elif op[0] == 'X':
+            make_sparse(cache_dir, tuple(op[1]), op[2])
+            res = ('ok', True)
         else:
             res = real.remove(op[1])
             touched.append(tuple(op[1]))
@@ -558,7 +598,7 @@ def run_case(ctx, version, ops, thresholds, label, probes_extra=()):
         for ext in ('.bundle', '.bundlx'):
             if os.path.exists(base + ext):
                 flens[(k, ext)] = os.path.getsize(base + ext)
-    seen_before = None if aborted else observe(real, probes, exp_skip)
+    seen_before = None if aborted else observe(real, probes, exp_skip, sparse)
 
     # --- the real defragmentation
     res = real.defrag(pn / pd, mb)
@@ -588,7 +628,7 @@ def run_case(ctx, version, ops, thresholds, label, probes_extra=()):
         left = [f for f in (os.listdir(cache_dir) if os.path.isdir(cache_dir) else []) if f.startswith('tmp_defrag')]
         if left:
             ctx.fail('v%d,defrag-leftover' % version, 'defragmentation left %r behind' % (left,), dict(replay, left=left))
-        seen_after = observe(real, probes, {})
+        seen_after = observe(real, probes, {}, sparse)
         if seen_after is not None:
             seen_after = [(k, o, True) for k, o, _ in seen_after]
 
@@ -601,9 +641,11 @@ def run_case(ctx, version, ops, thresholds, label, probes_extra=()):
     ctx.count('ops=%s' % ('<=5' if len(ops) <= 5 else '<=15' if len(ops) <= 15 else '>15'))
     ctx.count('defragmented=%d' % (sum(1 for v in res[1].values() if v) if res[0] == 'ok' else -1))
     ctx.count('live=%s' % ('0' if nlive == 0 else '1-3' if nlive <= 3 else '>3'))
-    term = '(%s, %s, (%s, %s, %s), %s, %s)' % (ops_lit(ops), llit(probes, slot_lit), zlit(pn), zlit(pd), zlit(mb),
+    if sparse:
+        ctx.count('sparse=%s' % ('>=2^32' if max(o[2] for o in ops if o[0] == 'X') >= 2 ** 32 else '<2^32'))
+    term = '(%s, %s, (%s, %s, %s), %s, %s)' % (ops_lit(ops, sparse), llit(probes, slot_lit), zlit(pn), zlit(pd), zlit(mb),
                                             seen_lit(seen_before), seen_lit(seen_after))
-    return term, replay
+    return term, replay, sparse
 
 
 def corpus_cases():
@@ -615,6 +657,8 @@ def corpus_cases():
             for o in d['ops']:
                 if o[0] == 'S':
                     ops.append(('S', [(tuple(a), list(b)) for a, b in o[1]]))
+                elif o[0] == 'X':
+                    ops.append(('X', tuple(o[1]), int(o[2])))
                 else:
                     ops.append(('R', tuple(o[1])))
             th = d.get('thresholds')
@@ -642,18 +686,67 @@ def fixed_cases():
     return cases
 
 
+SPARSE_SIZES = [2 ** 32 - 7, 2 ** 32 - 300, 2 ** 32 + 4096, 2 ** 32 + 1, 2 ** 33 + 1, 2 ** 33 - 100, 2 ** 36 + 12345,
+                2 ** 40 - 3000]
+
+
+def gen_sparse_history(ctx, sizes=None):
+    """A few tiles in the low part of one bundle, then the bundle `grows` (sparse hole, see make_sparse) to just
+    below / above 2^32, 2^33 or close to the 2^40 limit of the formats, then the history goes on with new tiles,
+    overwrites and removes on both sides of the hole; sometimes it grows a second time.  Everything appended after
+    the last growth stays below 2900 bytes, so that the file never reaches 2^40."""
+    rng = ctx.rng
+    z = rng.choice([0, 3, 11])
+    c, r = rng.choice([(0, 0), (128, 0), (0x380, 0x1380)])
+    key = (z, c, r)
+    pool = [(0, 0), (127, 127), (12, 99), (1, 0)] + [(rng.randrange(128), rng.randrange(128)) for _ in range(5)]
+
+    def coord():
+        x, y = rng.choice(pool)
+        return (c + x, r + y, z)
+
+    def small():
+        return [rng.randrange(256) for _ in range(rng.choice([1, 3, 8, 16, 40, 64]))]
+
+    ops, live = [], []
+    for _ in range(rng.randrange(1, 5)):
+        a = coord()
+        ops.append(('S', [(a, small())]))
+        live.append(a)
+    sizes = list(sizes or rng.sample(SPARSE_SIZES, rng.choice([1, 1, 2])))
+    sizes.sort()
+    for n in sizes:
+        ops.append(('X', key, n))
+        budget = 2900 // len(sizes)
+        for _ in range(rng.randrange(2, 7)):
+            k = rng.random()
+            if k < 0.2 and live:
+                ops.append(('R', rng.choice(live)))
+            else:
+                batch = [(rng.choice(live) if (live and rng.random() < 0.4) else coord(), small())
+                         for _ in range(rng.choice([1, 1, 2, 3]))]
+                cost = sum(4 + len(d) for _, d in batch)
+                if cost > budget:
+                    continue
+                budget -= cost
+                ops.append(('S', batch))
+                live.extend(a for a, _ in batch)
+    return ops
+
+
 def run(ctx):
-    terms = {1: [], 2: []}
-    descr = {1: [], 2: []}
+    terms = {1: [], 2: [], (1, 's'): [], (2, 's'): []}
+    descr = {1: [], 2: [], (1, 's'): [], (2, 's'): []}
 
     def add(version, ops, th, label, extra=()):
         try:
-            term, rep = run_case(ctx, version, ops, th, label, extra)
+            term, rep, sparse = run_case(ctx, version, ops, th, label, extra)
         except Exception as ex:   # noqa  (a harness failure must not look like success)
             ctx.problem('harness', 'case %s (v%d) could not be run: %r' % (label, version, ex), None)
             return
-        terms[version].append(term)
-        descr[version].append(rep)
+        k = (version, 's') if sparse else version
+        terms[k].append(term)
+        descr[k].append(rep)
 
     for version, ops, th, label in corpus_cases():
         if version is None:
@@ -670,6 +763,18 @@ def run(ctx):
             ops, _ = gen_history(ctx, version, nops)
             add(version, ops, None, 'random-%d' % i)
 
+    # bundles beyond 2^32 / 2^33 / close to 2^40 bytes (sparse): every size once per format, then random ones
+    for i, n in enumerate(SPARSE_SIZES if ctx.quick else SPARSE_SIZES * 3):
+        for version in (1, 2):
+            add(version, gen_sparse_history(ctx, [n]), None, 'sparse-%d' % i)
+    for i in range(ctx.n(4, 30)):
+        for version in (1, 2):
+            add(version, gen_sparse_history(ctx), None, 'sparse-random-%d' % i)
+
+    for version in (1, 2):
+        ctx.corr_check('v%d_sparse_history_defrag' % version, 'Bytes Gen_compact Gen_compact_fmt Bundle',
+                       'v%d_scase' % version, terms[(version, 's')], 'v%d_scase_ok' % version,
+                       (lambda v: (lambda i: descr[(v, 's')][i]))(version), shard=3)
     for version in (1, 2):
         ctx.corr_check('v%d_history_defrag' % version, 'Bytes Gen_compact Bundle', 'v%d_case' % version,
                        terms[version], 'v%d_case_ok' % version,
